@@ -36,3 +36,4 @@ acc C19-xlink-attribute-objects C19 part-link,link,opus '*' "part-link (link, op
 acc C08-name-attribute-unparseable C08 '*' '*' "own output with a 'name' attribute (bookmark, lyric-font, lyric-language, miscellaneous-field, ...) cannot be parsed back: the parser's setattr hits the read-only element-name property"
 acc C09-xlink-and-xml-attributes-refused C09 '*' 'valid-input-refused' "valid files are refused: xlink:* / xml:lang / xml:space / name attributes cannot be set by the parser; key, lyric(extend), ornaments and direction-type contents that the matcher's final check refuses (C02 root causes)"
 acc C09-reordered-midi-groups C09 sound,part-list,score-part,credit,harmony,metronome,lyric,key,ornaments 'valid-input-altered' "valid files are altered: repeated groups (sound midi pairs, part-list groups, ...) are re-ordered by the matcher (C02 root causes)"
+acc C18-xlink-elements C18 part-link,link,opus '*' "part-link (link, opus): reading xml_* on an unchecked element raises AttributeError from the undeclared xlink attribute objects"
